@@ -1,3 +1,53 @@
-"""C13 scraper for the csharp backend (placeholder, filled in below)."""
+"""C13 scraper for the C# backend:
+   [..DllImport[Attribute]("m", EntryPoint = "n"), ..WasmImportLinkage[Attribute]]  <mods> extern <ret> <name>(<params>);
+   [..UnmanagedCallersOnly[Attribute](EntryPoint = "n")]                           <mods> <ret> <name>(<params>) {"""
+import re
+from c13_common import mk, line_of, word_counts, text_files, split_params, mark_referenced
+
+IMPORT = re.compile(r'\[[^\]\n]*DllImport(?:Attribute)?\("(?P<m>[^"]*)",\s*EntryPoint\s*=\s*"(?P<n>[^"]*)"\)(?P<rest>[^\n]*)\]\s*\n\s*(?P<mods>(?:(?:public|internal|private|static|unsafe|extern)\s+)+)(?P<ret>[A-Za-z_][A-Za-z0-9_.:<>]*\s*\**)\s+(?P<f>[A-Za-z_][A-Za-z0-9_]*)\s*\((?P<p>[^)]*)\)\s*;')
+EXPORT = re.compile(r'\[[^\]\n]*UnmanagedCallersOnly(?:Attribute)?\(EntryPoint\s*=\s*"(?P<n>[^"]*)"\)\]\s*\n\s*(?P<mods>(?:(?:public|internal|private|static|unsafe)\s+)+)(?P<ret>[A-Za-z_][A-Za-z0-9_.:<>]*\s*\**)\s+(?P<f>[A-Za-z_][A-Za-z0-9_]*)\s*\((?P<p>[^)]*)\)')
+TY = {"int": "i", "uint": "i", "nint": "i", "nuint": "i", "IntPtr": "i", "UIntPtr": "i", "bool": "i", "byte": "i", "sbyte": "i",
+      "short": "i", "ushort": "i", "char": "i", "long": "I", "ulong": "I", "float": "f", "double": "F"}
+
+
+def core_ty(t):
+    t = t.strip()
+    if t.endswith("*"):
+        return "i"
+    return TY.get(t, "?")
+
+
+def sig_of(params, ret):
+    ps = ""
+    for p in split_params(params):
+        m = re.match(r"(.*?)\s*([A-Za-z_][A-Za-z0-9_]*)$", p.strip())
+        if not m:
+            return "?"
+        ps += core_ty(m.group(1))
+    rs = "" if ret.strip() == "void" else core_ty(ret)
+    s = ps + ">" + rs
+    return "?" if "?" in s else s
+
+
 def scrape(files):
-    return []
+    out = []
+    cs = text_files(files, [".cs"])
+    wc = word_counts(cs.values())
+    for fn, t in cs.items():
+        n_imp = len(re.findall(r'DllImport(?:Attribute)?\("', t))
+        n_exp = len(re.findall(r"UnmanagedCallersOnly(?:Attribute)?\(EntryPoint", t))
+        gi = ge = 0
+        for m in IMPORT.finditer(t):
+            gi += 1
+            linkage = "WasmImportLinkage" in m.group("rest")
+            out.append(mk("I", m.group("m"), m.group("n"), sig_of(m.group("p"), m.group("ret")) if linkage else "?",
+                          m.group("f"), fn, line_of(t, m.start())))
+            out[-1]["_scope"] = 0
+        for m in EXPORT.finditer(t):
+            ge += 1
+            out.append(mk("E", "", m.group("n"), sig_of(m.group("p"), m.group("ret")), m.group("f"), fn, line_of(t, m.start())))
+        if gi != n_imp:
+            out.append(mk("I", "?", "<%d DllImport attributes not parsed in %s>" % (n_imp - gi, fn), "?", "?", fn, 0))
+        if ge != n_exp:
+            out.append(mk("E", "", "<%d UnmanagedCallersOnly attributes not parsed in %s>" % (n_exp - ge, fn), "?", "?", fn, 0))
+    return mark_referenced(out, {0: wc})
